@@ -228,9 +228,14 @@ func genHistRandom(c *Ctx, which string) {
 		names := []string{"root", "h0", "h1", "h2", "m1", "m2", "nope"}
 		data := c.randData()
 		nsteps := 2 + c.rng.Intn(11)
+		executed := false
 		for j := 0; j < nsteps && !hb.dead; j++ {
 			h := pick(c, handles)
-			switch r := c.rng.Intn(23); {
+			r := c.rng.Intn(23)
+			if r < 11 {
+				executed = true
+			}
+			switch {
 			case r < 6:
 				hb.add(Step{Op: "exect", H: h, Name: pick(c, names), Data: data})
 			case r < 9:
@@ -262,7 +267,11 @@ func genHistRandom(c *Ctx, which string) {
 			case r < 21:
 				hb.add(Step{Op: "templates", H: h})
 			case r < 22:
-				hb.add(Step{Op: "csp", H: h})
+				// CSPCompatible() during construction; after an execution only for C08 (totality): the histories that
+				// C05/C06/C07/C09 quantify over do not contain option changes after the first execution
+				if which == "C08" || !executed {
+					hb.add(Step{Op: "csp", H: h})
+				}
 			default:
 				data = c.randData()
 			}
